@@ -3,6 +3,7 @@ package props
 import (
 	"strings"
 	"testing"
+	"verif/harness/chainkit"
 
 	"github.com/nspcc-dev/neo-go/pkg/neotest"
 	"github.com/nspcc-dev/neo-go/pkg/util"
@@ -43,7 +44,7 @@ func drawDelta(rt *rapid.T, r *nnsRun) int64 {
 func TestC10Stateful(t *testing.T) {
 	theT = t
 	col := ev.New("C10", "stateful",
-		"rapid state machine with a harness-owned clock over registerTLD/register (levels 2..4 under com/org, lifetimes 1/2/5/1000 s and 1 year)/transfer (to other users, to self, to a contract; one in three with another spelling of the token id - trailing root dot, upper-case first letter - which must be refused or be a complete transfer of the name)/renew 1..10 years/setAdmin, every call made by properly authorised signers, each block placed at now+1 ms or exactly at exp-1/exp/exp+1 of a known name; after every step totalSupply, balanceOf and tokensOf of every owner, and isAvailable/ownerOf/properties of all 10 names of the universe at now+1 and at exp-1/exp/exp+1 of each name are compared with the ownership model; Transfer/Renew notifications per transaction are exact; non-trivial = a takeover of an expired name by a different owner or an operation placed exactly at an expiration instant",
+		"rapid state machine with a harness-owned clock over registerTLD/register (levels 2..4 under com/org, lifetimes 1/2/5/1000 s and 1 year)/transfer (to other users, to self, to a contract, to a contract that transfers the name on from its payment callback; one in three with another spelling of the token id - trailing root dot, upper-case first letter - which must be refused or be a complete transfer of the name)/renew 1..10 years/setAdmin, every call made by properly authorised signers, each block placed at now+1 ms or exactly at exp-1/exp/exp+1 of a known name; after every step totalSupply, balanceOf and tokensOf of every owner, and isAvailable/ownerOf/properties of all 10 names of the universe at now+1 and at exp-1/exp/exp+1 of each name are compared with the ownership model; Transfer/Renew notifications per transaction are exact; non-trivial = a takeover of an expired name by a different owner or an operation placed exactly at an expiration instant",
 		"isAvailable of an unexpired name under an expired parent is don't-care (statement silent)", "calls are authorised as C11 demands (authorisation itself is C11)")
 	runRapid(t, col, func(rt *rapid.T, h *ev.History) {
 		w := newNnsWorld(1, h)
@@ -102,6 +103,7 @@ func TestC10Stateful(t *testing.T) {
 			}
 			return rapid.SampledFrom(nnsUniverse[2:]).Draw(rt, label)
 		}
+		var forwarder util.Uint160
 		steps := rapid.IntRange(2, 30).Draw(rt, "steps")
 		for s := 0; s < steps; s++ {
 			delta := drawDelta(rt, r)
@@ -128,7 +130,14 @@ func TestC10Stateful(t *testing.T) {
 					wh = as(owners[0])
 				}
 				to := rapid.SampledFrom(owners).Draw(rt, "to")
-				switch rapid.IntRange(0, 5).Draw(rt, "idSpelling") {
+				switch rapid.IntRange(0, 6).Draw(rt, "idSpelling") {
+				case 6:
+					if forwarder == (util.Uint160{}) {
+						forwarder = r.c.Deploy(chainkit.Probe("reenter", ""), nil)
+						r.names[forwarder] = "forwarder"
+						owners = append(owners, forwarder)
+					}
+					r.opTransferForward(wh, delta, name, forwarder, rapid.SampledFrom(owners[:3]).Draw(rt, "finalOwner"))
 				case 0:
 					r.opTransferAlias(wh, delta, name, name+".", to)
 				case 1:
